@@ -326,6 +326,13 @@ def deco_param_cases(ctx, viol, stats):
                             vals = {}
                             for prop in order:
                                 vals[prop] = getattr(h, prop)
+                            # look-ups must not change the helper: absent keys / positions, pattern queries
+                            for probe in (lambda: h.arg_by('zz_absent'), lambda: h.arg_by('zz_absent', ''), lambda: h.arg_at(99), lambda: h.any('zz'), lambda: h.match('zz'),
+                                          lambda: h.any_args('zz'), lambda: h.match_args('zz'), lambda: h.arg):
+                                try:
+                                    probe()
+                                except Exception:  # noqa  -- refusing an absent key is fine
+                                    pass
                             again = (h.path, dict(h.args), h.join_args)
                             cur = (vals['path'], dict(vals['args']), vals['join_args'])
                             if cur == want and again != want:
